@@ -379,7 +379,12 @@ func genBody(r *common.Rng, id string, allowEOF bool, kinds []string) Body {
 				if r.Chance(1, 8) {
 					k = common.Pick(r, []string{"Proxy-Authorization", "Keep-Alive", "Proxy-Connection", "Proxy-Authenticate"})
 				}
-				b.Trailers = append(b.Trailers, HF{K: recase(r, k), V: genValue(r), Pad: genPad(r)})
+				// net/http refuses a trailer section that does not fit its 4096-byte read buffer ("suspiciously long trailer"): keep it short
+				v := genValue(r)
+				if len(v) > 64 {
+					v = v[:64]
+				}
+				b.Trailers = append(b.Trailers, HF{K: recase(r, k), V: strings.Trim(v, " \t"), Pad: genPad(r)})
 				if !r.Chance(1, 10) { // mostly announced
 					b.Announce = append(b.Announce, recase(r, k))
 				}
@@ -659,7 +664,7 @@ func genCase(r *common.Rng, search bool) Case {
 		}
 	case 2: // garbage request
 		j := r.Range(0, last)
-		c.Reqs[j].Garbage = common.Pick(r, []string{"GET / HTTP/1.1\r\nBad Header\r\n\r\n", "NOTHTTP\r\n\r\n", "GET http://example.com/ HTTP/1.1\r\nX y: z\r\n\r\n", "GET /x HTTP/9.9.9\r\n\r\n"})
+		c.Reqs[j].Garbage = common.Pick(r, []string{"GET / HTTP/1.1\r\nBad Header\r\n\r\n", "NOTHTTP\r\n\r\n", "GET http://example.com/ HTTP/1.1\r\n: z\r\n\r\n", "GET /x HTTP/9.9.9\r\n\r\n"})
 		c.Kind = "garbage-request"
 	case 3: // first accepted request is CONNECT
 		if r.Chance(1, 2) {
